@@ -26,10 +26,10 @@ theorem C03_framing_ignores_status_line_details (h h' : HeadS) (m : Method) (f :
     (hflat : flatT t = bytesI h.render ++ rest) (hflat' : flatT t' = bytesI h'.render ++ rest') :
     ∃ r1 r1', parseResponse m mh cap t = .ok
         { status := h.code, headers := h.seen.remove nameTE, rawHeaders := h.seen,
-          coding := selectCoding m h.seen, body := Body.new f r1 } ∧
+          coding := codingFor (bodyless m h.code) m h.seen, body := Body.new f r1 } ∧
       parseResponse m mh cap t' = .ok
         { status := h.code, headers := h.seen.remove nameTE, rawHeaders := h.seen,
-          coding := selectCoding m h.seen, body := Body.new f r1' } ∧
+          coding := codingFor (bodyless m h.code) m h.seen, body := Body.new f r1' } ∧
       r1.flat = rest ∧ r1'.flat = rest' := by
   have hseen : h'.seen = h.seen := HeadS.seen_of_fields h h' hfields
   obtain ⟨r1, _, hfl, hp⟩ := parseResponse_of_head h hh rest t cap mh hw hcap hmh hms hflat
